@@ -141,6 +141,42 @@ def coverage_histories():
     return hs
 
 
+# definition keys that are NOT their own Pascal-case type name -> type name typify gives them (observed on the
+# real code; the first call of every key history re-checks it).  convert_ref_type registers the TYPE name in
+# name_to_id (lib.rs:751-753), which is what assign_type's reuse-by-name asks for (lib.rs:942).
+KEY_TYPES = {"disk-state": "DiskState", "disk_state": "DiskState", "diskState": "DiskState",
+             "DISK_STATE": "DiskState", "disk state": "DiskState", "disk.state": "DiskState",
+             "9lives": "X9lives", "gr\u00f6\u00dfe": "Gr\u00f6\u00dfe", "x-ray-2": "XRay2"}
+
+
+def key_histories():
+    """systematic, seed independent: a definition under a kebab / snake / camel / upper / spaced / dotted /
+    leading-digit / unicode key, then a later call adds the same schema under the sanitized type name and under
+    the raw key (hint, title, titled property, `$ref`): it must get the existing id, nothing may be defined twice"""
+    import random as _r
+    hs = []
+    for ki, (key, tn) in enumerate(sorted(KEY_TYPES.items())):
+        for shape in ("struct", "newtype_string_length", "enum_external_simple"):
+            sc = NAMED_KINDS[shape](_r.Random(1700 + ki))
+            origins = [("batch", {"op": "refs", "defs": {key: sc}}),
+                       ("root-definitions", {"op": "root", "doc": dict(_obj(d={"$ref": "#/definitions/" + key}),
+                                                                       title="TopDoc", definitions={key: sc})})]
+            forms = [("hint-type-name", {"op": "add", "schema": sc, "name": tn}),
+                     ("hint-raw-key", {"op": "add", "schema": sc, "name": key}),
+                     ("title-type-name", {"op": "add", "schema": dict(sc, title=tn)}),
+                     ("title-raw-key", {"op": "add", "schema": dict(sc, title=key)}),
+                     ("titled-property", {"op": "add", "schema": _obj(p=dict(sc, title=tn)), "name": "OuterOne"}),
+                     ("titled-property-in-batch", {"op": "refs", "defs": {"LaterTwo": _obj(q=dict(sc, title=key))}}),
+                     ("reference", {"op": "add", "schema": {"$ref": "#/definitions/" + key}})]
+            for oname, first in origins:
+                hs.append({"steps": copy.deepcopy([first] + [f for _, f in forms] + [forms[0][1]]),
+                           "coverage": "keys/%s/%s/%s" % (key, shape, oname), "key": key})
+                for fname, st in forms:
+                    hs.append({"steps": copy.deepcopy([first, st] + ([st] if st["op"] == "add" else [])),
+                               "coverage": "keys/%s/%s/%s/%s" % (key, shape, oname, fname), "key": key})
+    return hs
+
+
 def root_histories():
     """systematic, seed independent: several titled add_root_schema calls on ONE space (different titles,
     self references through "#", with and without definitions), interleaved with batches and reference probes"""
@@ -185,6 +221,16 @@ class Gen:
         self.named = []    # (type name, schema, kind): named things added so far, candidates for re-adding
 
     def fresh(self):
+        """a name whose TYPE name is new; a quarter of them are not written in Pascal case (kebab, snake, camel,
+        upper snake): as definition key, hint or title they all sanitize to the same type name"""
+        base = self.fresh_base()
+        w = self.rnd.random()
+        if w < 0.75:
+            return base
+        lo = base[0].lower() + base[1:]
+        return self.rnd.choice([lo + "-node", lo + "_node", lo + "Node", base.upper() + "_NODE"])
+
+    def fresh_base(self):
         if not self.free:
             self.round += 1
             self.free = ["%s%s%d" % (n, self.tag, self.round) for n in POOL]
@@ -640,7 +686,8 @@ def reachable(views, roots):
 
 
 def _norm(nm):
-    return "".join(c for c in str(nm).lower() if c.isalnum())
+    nm = KEY_TYPES.get(str(nm), str(nm))
+    return "".join(c for c in nm.lower() if c.isalnum())
 
 
 def _named_target(views, i, depth=0):
@@ -1024,12 +1071,13 @@ def run(ctx):
     corpus = load_corpus()
     hists = [{"steps": c["steps"], "settings": c.get("settings", {}), "corpus": c["file"],
               "expect": c.get("expect", []), "must_reject": c.get("must_reject", [])} for c in corpus]
-    cover = coverage_histories() + root_histories()
+    cover = coverage_histories() + root_histories() + key_histories()
     for c in cover:
-        hists.append({"steps": c["steps"], "seed_path": "coverage:" + c["coverage"], "coverage": c["coverage"]})
+        hists.append({"steps": c["steps"], "seed_path": "coverage:" + c["coverage"], "coverage": c["coverage"],
+                      "key": c.get("key")})
     for k in range(n_hist):
         hists.append({"steps": gen_history(rnd, maxlen), "seed_path": "%d/%d" % (ctx.seed, k)})
-    ctx.log("histories: %d corpus + %d systematic (named kinds x origins x re-add forms; titled roots) + %d generated (max %d calls)" % (
+    ctx.log("histories: %d corpus + %d systematic (named kinds x origins x re-add forms; titled roots; non-Pascal definition keys) + %d generated (max %d calls)" % (
         len(corpus), len(cover), n_hist, maxlen))
 
     okm, outm = vlib.coq_make(["theories/Algo/Space.vo"])
@@ -1041,7 +1089,7 @@ def run(ctx):
     n_calls = n_failed_hist = n_readd = n_box = n_old_touched = n_replayed = 0
     op_dist, len_dist, viol_kinds = {}, {}, {}
     trace_err, hyp_bad, mism, k4, model_errors = [], [], [], [], []
-    flavours, readded, cover_failed = {}, {}, []
+    flavours, readded, cover_failed, key_bad = {}, {}, [], []
     findings = {f["id"]: f for f in ctx.findings_for()}
     # histories are processed in chunks: the per-call dumps are large and are dropped after each chunk
     CH = 60
@@ -1107,6 +1155,11 @@ def run(ctx):
                         rid = rc["res"].get("id")
                         if t > 0 and rid is not None and str(rid) == i_s and i_s in recs[t - 1]["dump"]["entries"]:
                             readded[fl] = readded.get(fl, 0) + 1
+            if h.get("key") and recs and recs[0]["res"]["r"] == "ok":
+                got = sorted(e["name"] for e in recs[0]["dump"]["entries"].values()
+                             if is_named(e) and e["name"] not in ("TopDoc",))
+                if KEY_TYPES[h["key"]] not in got:
+                    key_bad.append({"key": h["key"], "expected_type_name": KEY_TYPES[h["key"]], "named_entries": got})
             if "coverage" in h and any(rc["res"]["r"] != "ok" for rc in recs):
                 cover_failed.append({"coverage": h["coverage"], "results": [rc["res"] for rc in recs]})
             # ---- (b) direct oracles, clauses 1-3
@@ -1183,6 +1236,8 @@ def run(ctx):
             "newtype:string", "newtype:enum", "newtype:deny", "newtype:none"]
     ctx.oblige("coverage stream: every call of the %d systematic histories is accepted" % len(cover),
                not cover_failed, json.dumps(cover_failed[:2])[:1500])
+    ctx.oblige("key stream: every non-Pascal definition key gets the type name of the table KEY_TYPES", not key_bad,
+               json.dumps(key_bad[:2]))
     ctx.oblige("coverage: every named entry flavour (struct, 4 enum taggings, 4 newtype flavours) is created AND "
                "returned again by a later call", all(flavours.get(w) and readded.get(w) for w in want),
                "created %s / re-returned %s" % (json.dumps(flavours, sort_keys=True), json.dumps(readded, sort_keys=True)))
@@ -1261,14 +1316,24 @@ def run(ctx):
         v = unlisted[0]
         v["broken_obligations"] = [o[0] for o in ctx.broken()]
         ctx.violation(v)
+    elif mism or trace_err:
+        # no clause oracle fired, but the implementation left the model's transition relation on concrete
+        # histories: the shortest one IS the replay (with what it resolves to, call by call)
+        div = sorted(mism + trace_err, key=lambda m: (len(m["history"]), len(json.dumps(m["history"]))))[0]
+        ctx.violation({"kind": "implementation-deviates-from-allocation-model",
+                       "history": div["history"], "source": div.get("source"),
+                       "difference": div.get("difference", div.get("error")),
+                       "what_the_history_resolves_to": div.get("what_the_history_resolves_to"),
+                       "histories_diverging": len(mism) + len(trace_err),
+                       "broken_obligations": [o[0] for o in ctx.broken()],
+                       "note": "Space.v (proved model of next_id / id_to_entry / type_to_id / name_to_id / ref_to_id) "
+                               "replayed on this history disagrees with verif_dump; the theorems of Props/C16.v no "
+                               "longer describe the implementation on it"})
     elif ctx.broken():
         # search found nothing: still report
         ctx.violation({"broken_obligations": [(o[0], o[2][:1500]) for o in ctx.broken()],
-                       "histories_on_which_model_and_implementation_part": (trace_err + mism)[:3],
                        "note": "a theorem or the model/implementation correspondence no longer checks; the direct "
-                               "evaluation of the four clauses found no failing history.  For each history above "
-                               "`what_the_history_resolves_to` shows, call by call, the type every reference key and "
-                               "the returned id resolve to next to the model's answer"}, no_input=True)
+                               "evaluation of the four clauses found no failing history"}, no_input=True)
 
     if ctx.tier == "thorough" and coq_ok:
         rc, out, err = vlib.sh("timeout 1500 coqchk -silent -o -Q theories Typify Typify.Props.C16", cwd=vlib.COQ,
